@@ -20,7 +20,7 @@ from ..tok import S
 from ..gen import graphs as G
 
 PID = "C12"
-COQ_HEADER = "From Coq Require Import List NArith ZArith.\nImport ListNotations.\nFrom SK Require Import lib.Tok lib.LGraph model.C12_Model.\n"
+COQ_HEADER = "From Coq Require Import List NArith ZArith.\nImport ListNotations.\nFrom SK Require Import lib.Tok lib.LGraph model.C12_Model model.C12_State.\n"
 SHARD = 250
 IMPL_TIMEOUT = 1500
 COQ_TIMEOUT = 1500
@@ -60,7 +60,7 @@ TESTED_NOT_PROVED = ["prune_automorphisms=True: WHICH mapping represents a host 
                      "derived views of a matcher object (mappings, num_mappings, mapping_direction, iteration, repr, repeated and re-ordered "
                      "get_mappings reads, reads after the caller edited earlier results): checked by the adapter against the stored result "
                      "after every step of every history"]
-LEVEL_TEXT = ("Machine-checked proof (Coq, 27 theorems in coq/props/C12.v, all closed under the global context) over an executable model "
+LEVEL_TEXT = ("Machine-checked proof (Coq, 40 theorems in coq/props/C12.v, all closed under the global context) over an executable model "
               "of MCSMatcher._search_subgraphs / _prune_graph / _prepare_orientation / find_common_subgraph / get_mappings (both copies of "
               "the matcher), for all pairs of graphs with distinct node ids: every returned mapping (both modes, all three directions, after "
               "orientation swap and wildcard pruning) is a function, injective, label-preserving, and preserves presence AND order of every "
@@ -73,14 +73,19 @@ LEVEL_TEXT = ("Machine-checked proof (Coq, 27 theorems in coq/props/C12.v, all c
               "of component-wise mode (find_rc_mapping component=True: components by reachability closure, stable size sort, pairwise search) is a "
               "common induced mapping also across components (C12_component_valid). The level-by-level search is related to the verified enumerator "
               "lib/Mono.v (induced) by C12_level_exact; the dependence on networkx VF2 is the explicit premise of C12_vf2_premise (same "
-              "result SET per k-subset). Model and code are compared on every run (ordered lists, sizes, subset counts).")
+              "result SET per k-subset). Round 5: the matcher OBJECT is a state machine in the model (model/C12_State.v: constructor normalisation, "
+              "attribute selection on the raw dictionaries incl. values float() rejects, cache with the unknown-direction state, ITS facade): "
+              "C12_history_independent (a search never looks at the cache), C12_history_valid (the property after ANY history of calls on one "
+              "object), C12_reads_inverse, C12_state_unknown, C12_facade_sides, C12_history_component_valid, C12_ctor_normalised, C12_raw_matchers, "
+              "C12_raw_meaning. Model and code are compared on every run (ordered lists, sizes, subset counts, every read of every history).")
 LEVEL_NOTE = ("Trusted: Coq kernel + vm_compute; the hand-written model and encoders; networkx VF2 returns, for every k-subset, the same set of "
               "induced sub-graph isomorphisms as the verified enumerator (C12_vf2_premise states that nothing else about VF2 matters; "
               "monitored: ordered result lists compared on every case); in component-wise mode with pruning the node order of networkx's pruned copy "
               "(Python-set order when fewer than half of the atoms survive) is an input of the model. Not modelled, oracle only: "
               "the representative kept by prune_automorphisms and the isomorphism chosen inside a matched pair of mcs_mol (VF2's first result; the "
               "order-independent parts of both modes are modelled). Not proved (compared only): last_size in all-sizes mode. "
-              "Histories on reused matcher / graph objects are compared step by step with the (pure) model.")
+              "Histories on reused matcher objects (Matcher copy) run through the state-machine model (h_play); MTG histories are compared "
+              "step by step with the pure model. its_decompose is external (the four sides are inputs of the model).")
 TECHNIQUE = ("Coq proof about a structure-following Gallina model (loop invariants of the size-descending search, refinement to the "
              "verified enumerator Mono.monos via an order-free reading of Mono.valid, transport through inversion for the orientation swap) "
              "+ per-run correspondence by vm_compute + independent brute-force oracle")
@@ -129,6 +134,11 @@ def _ctor_args(case):
     defaults ["*"] per attribute, edge attribute "order") is left out (None), so the defaulting paths of __init__ are exercised;
     the case still records the effective configuration, which is what model and oracle use."""
     na, nd, ea = list(case["node_attrs"]), list(case["node_defaults"]), list(case["edge_attrs"])
+    if case.get("passed") is not None:
+        # round 5: the arguments are given literally (None = omitted, [] = empty list); node_attrs / node_defaults / edge_attrs of
+        # the case still record the EFFECTIVE configuration (what oracle and old-style model terms use)
+        ps = case["passed"]
+        return ps.get("node_attrs"), ps.get("node_defaults"), ps.get("edge_attrs")
     if case.get("implicit"):
         if nd == ["*"] * len(na):
             nd = None
@@ -259,7 +269,44 @@ def _obs(M, cnt, variant, case=None):
     return [M.last_size, cnt, _dicts(M.get_mappings())]
 
 
+def _ctor_impl(c):
+    """Construct a matcher with exactly the arguments of c (None = argument omitted) and read the stored options back."""
+    mod = _patched("synkit.Graph.Matcher.mcs_matcher")
+    kw = {}
+    for k_, name in (("edge_attrs", "edge_attrs"), ("prune_wc", "prune_wc"), ("prune_auto", "prune_automorphisms"),
+                     ("wildcard", "wildcard_element"), ("element_key", "element_key")):
+        if c.get(k_) is not None:
+            kw[name] = c[k_]
+    try:
+        if c.get("positional"):
+            M = mod.MCSMatcher(c.get("node_attrs"), c.get("node_defaults"), True, **kw)
+        else:
+            M = mod.MCSMatcher(node_attrs=c.get("node_attrs"), node_defaults=c.get("node_defaults"), **kw)
+    except ValueError:
+        return None
+    return M
+
+
+def _state_views(M):
+    """What a caller can see of the cache: flag, last_size, num_mappings, the three standard reads."""
+    def rd(d):
+        try:
+            return _dicts(M.get_mappings(d))
+        except ValueError:
+            return -1
+    flag = M._last_pattern_is_G1
+    assert M.mapping_direction == ("unknown" if flag is None else "G1_to_G2" if flag else "G2_to_G1")
+    return [-1 if flag is None else bool(flag), M.last_size, M.num_mappings, rd("pattern_to_host"), rd("G1_to_G2"), rd("G2_to_G1")]
+
+
 def impl(case):
+    if "ctor" in case:
+        M = _ctor_impl(case["ctor"])
+        if M is None:
+            return -1
+        T = _coq_ctor(case)[1]          # the same tables as the encoder (values the arguments do not contain get fresh codes)
+        return [[T.NK(x) for x in M._node_attrs], [T.NV(x) for x in M._node_defaults], [T.EK(x) for x in M._edge_attrs],
+                bool(M.prune_wc), bool(M.prune_automorphisms), T.NV(M.wildcard_element), T.NK(M.element_key)]
     if "steps" in case:
         return [[o, ok] for o, ok, _ in _run_history(case)]
     M, cnt = _run(case)
@@ -302,7 +349,7 @@ def _sub(case, st):
     d = dict(kind=case["kind"], variant=case["variant"], g1=st["g1"], g2=st["g2"], mcs=st["mcs"],
              node_attrs=cfg["node_attrs"], node_defaults=cfg["node_defaults"], edge_attrs=cfg["edge_attrs"],
              prune_wc=cfg.get("prune_wc", False), prune_auto=cfg.get("prune_auto", False), implicit=cfg.get("implicit", False))
-    for k in ("wildcard", "element_key"):
+    for k in ("wildcard", "element_key", "passed"):
         if k in cfg:
             d[k] = cfg[k]
     d["in_history"] = True
@@ -393,6 +440,28 @@ def _run_history(case):
             matchers[ci] = _new_matcher(sub)
         M = matchers[ci]
         gs = []
+        if st.get("call") == "reads" and variant == "mtg":
+            out.append(([M.last_size, _dicts(M.get_mappings())], _derived_ok(M, variant, []), None))
+            continue
+        if st.get("call") == "reads":
+            # reads only (also before any search, also with an unknown direction string): answers + the visible cache
+            res = []
+            for d in st["reads"]:
+                try:
+                    res.append(_dicts(M.get_mappings(d)))
+                except ValueError:
+                    res.append(-1)
+            out.append(([res] + _state_views(M), True, None))
+            continue
+        if st.get("call") == "bad_side":
+            # the facade with an unknown side: ValueError, raised after the cache was reset
+            its1, its2 = G.to_nx(st["its1"]), G.to_nx(st["its2"])
+            try:
+                M.find_rc_mapping(its1, its2, side=st["side"], mcs=st["mcs"], component=st.get("component", True))
+                out.append((["no-error"] + _state_views(M), True, None))
+            except ValueError:
+                out.append(([-1] + _state_views(M), True, None))
+            continue
         if st.get("call") == "rc_side":
             # the ITS facade: find_rc_mapping(its1, its2, side=r|l|op); st["g1"], st["g2"] are the sides it must compare
             its1, its2 = G.to_nx(st["its1"]), G.to_nx(st["its2"])
@@ -513,7 +582,244 @@ def _nx_prune_order(g, case):
     return {"nodes": [[n, attrs[n]] for n in order] + [[n, a] for n, a in g["nodes"] if n not in set(keep)], "edges": g["edges"]}
 
 
+
+# ------------------------------------------------------------------ round 5: the matcher OBJECT as a state machine (model/C12_State.v)
+
+class _Pin:
+    """Injective table value -> N code with one value pinned to code 0 (the model's K_ELEMENT / K_ORDER / V_STAR)."""
+
+    def __init__(self, first):
+        import json
+        self._j = json
+        self.t = {json.dumps(first): 0}
+
+    def __call__(self, v):
+        k = self._j.dumps(v, sort_keys=True)
+        if k not in self.t:
+            self.t[k] = len(self.t)
+        return self.t[k]
+
+
+class _Outside(Exception):
+    pass
+
+
+def _simple(v):
+    return isinstance(v, (int, str)) and not isinstance(v, bool)
+
+
+def _num_norm(x):
+    if isinstance(x, (list, tuple)):
+        return [_num_norm(y) for y in x]
+    if isinstance(x, bool):
+        return float(x)
+    if isinstance(x, (int, float)):
+        return float(x)
+    return x
+
+
+def _evalue(x, EV):
+    """An edge attribute value as float() sees it: castable -> ENum (half-units), not castable -> EOther (interned by ==)."""
+    import math
+    if x is None:
+        raise _Outside("explicit None")
+    if isinstance(x, (int, float, str)):
+        try:
+            f = float(x)
+        except ValueError:
+            return "EOther %s" % cN(EV(["s", x]))
+        if math.isnan(f) or math.isinf(f) or f * 2 != int(f * 2):
+            raise _Outside("order %r" % (x,))
+        return "ENum %s" % cZ(int(f * 2))
+    if isinstance(x, (list, tuple)):
+        return "EOther %s" % cN(EV(["l", _num_norm(x)]))
+    raise _Outside("edge value %r" % (x,))
+
+
+class _Tables:
+    def __init__(self):
+        self.NK, self.EK, self.NV, self.EV = _Pin("element"), _Pin("order"), _Pin("*"), _Pin(["s", ""])
+
+
+def _coq_rgraph(g, T, needed):
+    """Raw graph: every node attribute with a simple value (a configured key with another kind of value: outside the domain),
+    every edge attribute."""
+    ids = [n for n, _ in g["nodes"]]
+    if len(set(ids)) != len(ids) or any(not isinstance(n, int) or isinstance(n, bool) or n < 0 for n in ids):
+        raise _Outside("ids")
+    seen = set()
+    for u, v, _ in g["edges"]:
+        if u == v or frozenset((u, v)) in seen or u not in ids or v not in ids:
+            raise _Outside("edges")
+        seen.add(frozenset((u, v)))
+
+    def na(n, a):
+        items = []
+        for k, v in a.items():
+            if _simple(v):
+                items.append(cpair(cN(T.NK(k)), cN(T.NV(v))))
+            elif k in needed:
+                raise _Outside("node value %r" % (v,))
+        return clist(items)
+
+    def ea(u, v, a):
+        return clist(["(%s, %s)" % (cN(T.EK(k)), _evalue(x, T.EV)) for k, x in a.items()])
+    return G.coq_lgraph(g, na, ea)
+
+
+def _ctor_term(c, T):
+    """ctor_args literal from the arguments REALLY passed (None = omitted)."""
+    def names(l, tab):
+        return "None" if l is None else "(Some %s)" % clist([cN(tab(x)) for x in l])
+    for d in (c.get("node_defaults") or []) + [c.get("wildcard", "*")]:
+        if not _simple(d):
+            raise _Outside("default %r" % (d,))
+    return ("{| a_node_attrs := %s; a_node_defaults := %s; a_edge_attrs := %s; a_prune_wc := %s; a_prune_auto := %s; "
+            "a_wildcard := %s; a_element_key := %s |}" % (
+                names(c.get("node_attrs"), T.NK), names(c.get("node_defaults"), T.NV), names(c.get("edge_attrs"), T.EK),
+                cbool(bool(c.get("prune_wc", False))), cbool(bool(c.get("prune_auto", False))),
+                cN(T.NV(c.get("wildcard", "*"))), cN(T.NK(c.get("element_key", "element")))))
+
+
+def _passed_args(cfg):
+    """The constructor arguments the adapter really passes for a configuration (see _ctor_args / _new_matcher)."""
+    na, nd, ea = _ctor_args(cfg)
+    d = dict(node_attrs=na, node_defaults=nd, edge_attrs=ea, prune_wc=cfg.get("prune_wc", False), prune_auto=cfg.get("prune_auto", False))
+    if "wildcard" in cfg:
+        d["wildcard"] = cfg["wildcard"]
+    if "element_key" in cfg:
+        d["element_key"] = cfg["element_key"]
+    return d
+
+
+_DIR_CODE = {"pattern_to_host": "DP2H", "G1_to_G2": "D12", "G2_to_G1": "D21"}
+_SIDE_CODE = {"r": "SR", "l": "SL", "op": "SOp", "its": "SIts"}
+_EMPTY_G = {"nodes": [], "edges": []}
+
+
+def _coq_history(case):
+    """Matcher copy: the history as calls on matcher OBJECTS of the state-machine model (constructor normalisation, attribute
+    selection on the raw dictionaries, cache, facade).  Steps in a VF2-order dependent mode (prune_automorphisms, mcs_mol) are
+    external: their value-determined observable is computed by the functions of C12_Model.v (as before)."""
+    T = _Tables()
+    configs = case["configs"] if "configs" in case else [case]
+    needed = set()
+    for cfg in configs:
+        needed |= set(cfg["node_attrs"]) | {cfg.get("element_key", ELEM_KEY)}
+    try:
+        args = clist([_ctor_term(_passed_args(cfg), T) for cfg in configs])
+        ops = []
+        opaque = set()          # matcher objects whose cache the model does not track at the moment
+        for st in case["steps"]:
+            ci = st.get("cfg", 0)
+            cfg = configs[ci]
+            if st.get("fresh"):
+                ops.append("HNew %d" % ci)
+                opaque.discard(ci)
+            call = st.get("call", "fcs")
+            if call == "reads":
+                if ci in opaque:
+                    return None
+                ops.append("HCall %d (MReads %s)" % (ci, clist([_DIR_CODE.get(d, "DBad") for d in st["reads"]])))
+                continue
+            sub = _sub(case, st)
+            if call == "bad_side":
+                e = G.coq_lgraph(_EMPTY_G, None, None)
+                ops.append("HCall %d (MRc {| rc_1 := %s; rc_2 := %s; rc_l1 := %s; rc_r1 := %s; rc_l2 := %s; rc_r2 := %s |} SBad %s %s)"
+                           % (ci, e, e, e, e, e, e, cbool(st["mcs"]), cbool(st.get("component", True))))
+                opaque.discard(ci)
+                continue
+            if cfg.get("prune_auto") or sub.get("mode") == "mcs_mol":
+                t = coq_case(sub)
+                if t is None:
+                    return None
+                ops.append("HExternal %d (%s)" % (ci, t))
+                opaque.add(ci)
+                continue
+            opaque.discard(ci)
+            g1 = _coq_rgraph(_nx_prune_order(st["g1"], sub), T, needed)
+            g2 = _coq_rgraph(_nx_prune_order(st["g2"], sub), T, needed)
+            if call == "fcs":
+                ops.append("HCall %d (MFind %s %s %s)" % (ci, g1, g2, cbool(st["mcs"])))
+                continue
+            e = G.coq_lgraph(_EMPTY_G, None, None)
+            if call in ("rc_its", "component"):
+                sd, comp = "SIts", call == "component"
+                x = dict(rc_1=g1, rc_2=g2, rc_l1=e, rc_r1=e, rc_l2=e, rc_r2=e)
+            elif call == "rc_side":
+                sd, comp = _SIDE_CODE[st["side"]], bool(st.get("component", False))
+                x = dict(rc_1=e, rc_2=e, rc_l1=e, rc_r1=e, rc_l2=e, rc_r2=e)
+                if "sides" in st:       # all four sides (computed by the generator, independently of its_decompose)
+                    for k_ in ("l1", "r1", "l2", "r2"):
+                        x["rc_" + k_] = _coq_rgraph(_nx_prune_order(st["sides"][k_], sub), T, needed)
+                a_, b_ = {"SR": ("rc_r1", "rc_r2"), "SL": ("rc_l1", "rc_l2"), "SOp": ("rc_r1", "rc_l2")}[sd]
+                x[a_], x[b_] = g1, g2
+            else:
+                return None
+            ops.append("HCall %d (MRc {| rc_1 := %s; rc_2 := %s; rc_l1 := %s; rc_r1 := %s; rc_l2 := %s; rc_r2 := %s |} %s %s %s)"
+                       % (ci, x["rc_1"], x["rc_2"], x["rc_l1"], x["rc_r1"], x["rc_l2"], x["rc_r2"], sd, cbool(st["mcs"]), cbool(comp)))
+    except _Outside:
+        return None
+    return "run_history %s %s" % (args, clist(ops))
+
+
+def _coq_history_mtg(case):
+    """MTG copy: the history as calls on ONE object of the state-machine model (constructor with zip truncation, attribute
+    selection on the raw dictionaries, cache, facade = right side of rc1 against left side of rc2)."""
+    T = _Tables()
+    cfg = case["configs"][0] if "configs" in case else case
+    if len(case.get("configs", [cfg])) != 1:
+        return None
+    na, nd, ea = _ctor_args(cfg)
+    needed = set(cfg["node_attrs"]) | set(na or [])
+    try:
+        for d in (nd or []):
+            if not _simple(d):
+                raise _Outside("default")
+        names = lambda l, tab: "None" if l is None else "(Some %s)" % clist([cN(tab(x)) for x in l])
+        args = "{| ma_names := %s; ma_defs := %s; ma_edge := %s |}" % (
+            names(na, T.NK), names(nd, T.NV), cN(T.EK(cfg["edge_attrs"][0] if ea is not None else "order")))
+        ops = []
+        e = G.coq_lgraph(_EMPTY_G, None, None)
+        for st in case["steps"]:
+            if st.get("fresh") or st.get("cfg", 0) != 0:
+                return None
+            call = st.get("call", "fcs")
+            if call == "reads":
+                ops.append("TRead")
+                continue
+            g1, g2 = _coq_rgraph(st["g1"], T, needed), _coq_rgraph(st["g2"], T, needed)
+            if call == "fcs":
+                ops.append("TFind %s %s %s" % (g1, g2, cbool(st["mcs"])))
+            elif call == "rc_side":
+                x = dict(rc_l1=e, rc_r1=g1, rc_l2=g2, rc_r2=e)
+                if "sides" in st:
+                    for k_ in ("l1", "r2"):
+                        x["rc_" + k_] = _coq_rgraph(st["sides"][k_], T, needed)
+                ops.append("TRc {| rc_1 := %s; rc_2 := %s; rc_l1 := %s; rc_r1 := %s; rc_l2 := %s; rc_r2 := %s |} %s"
+                           % (e, e, x["rc_l1"], x["rc_r1"], x["rc_l2"], x["rc_r2"], cbool(st["mcs"])))
+            else:
+                return None
+    except _Outside:
+        return None
+    return "run_history_mtg %s %s" % (args, clist(ops))
+
+
+def _coq_ctor(case):
+    T = _Tables()
+    try:
+        return "run_ctor %s" % _ctor_term(case["ctor"], T), T
+    except _Outside:
+        return None, T
+
+
 def coq_case(case):
+    if "ctor" in case:
+        return _coq_ctor(case)[0]
+    if "steps" in case and case["variant"] == "matcher":
+        return _coq_history(case)
+    if "steps" in case and case["variant"] == "mtg":
+        return _coq_history_mtg(case)
     if "steps" in case:
         terms = [coq_case(_sub(case, st)) for st in case["steps"]]
         if any(t is None for t in terms):
@@ -544,12 +850,19 @@ def _label(a, case):
     return tuple(a.get(k, d) for k, d in zip(case["node_attrs"], case["node_defaults"]))
 
 
+def _order_val(x):
+    """A bond attribute as the property reads it: a number where it is one (1, 1.0, "1", True), else the value itself."""
+    if x is None:
+        return None
+    try:
+        return float(x)
+    except (TypeError, ValueError):
+        import json
+        return ("other", json.dumps(_num_norm(x), sort_keys=True))
+
+
 def _orders(a, case):
-    out = []
-    for k in case["edge_attrs"]:
-        x = a.get(k)
-        out.append(None if x is None else float(x))
-    return tuple(out)
+    return tuple(_order_val(a.get(k)) for k in case["edge_attrs"])
 
 
 def _tables(g, case):
@@ -651,9 +964,13 @@ def _judge(case, views, flag_known=True):
 
 
 def oracle(case):
+    if "ctor" in case:
+        return []
     if "steps" in case:
         fails = []
         for k, (st, (_, ok, views)) in enumerate(zip(case["steps"], _run_history(case))):
+            if views is None:
+                continue            # reads / failed facade call: nothing the property speaks about (correspondence only)
             for f in _judge(_sub(case, st), views):
                 f["detail"] = "step %d (%s): %s" % (k, st.get("call", "fcs"), f["detail"])
                 fails.append(f)
@@ -676,8 +993,11 @@ def _msizes(case, obs):
 
 
 def nontrivial(case, obs):
+    if "ctor" in case:
+        return False
     if "steps" in case:
-        return len(case["steps"]) >= 2 and any(nontrivial(_sub(case, st), o[0]) for st, o in zip(case["steps"], obs))
+        return len(case["steps"]) >= 2 and any(nontrivial(_sub(case, st), o[0]) for st, o in zip(case["steps"], obs)
+                                               if st.get("call") not in _NON_SEARCH)
     if len(case["g1"]["nodes"]) < 2 or len(case["g2"]["nodes"]) < 2:
         return False
     if case["g1"] == case["g2"]:
@@ -690,6 +1010,9 @@ def distribution(cases, obss):
     hist = {}
     flat = []
     for c, o in zip(cases, obss):
+        if "ctor" in c:
+            hist["ctor_cases"] = hist.get("ctor_cases", 0) + 1
+            continue
         if "steps" in c:
             hist["histories"] = hist.get("histories", 0) + 1
             hist["steps"] = hist.get("steps", 0) + len(c["steps"])
@@ -699,7 +1022,8 @@ def distribution(cases, obss):
                     hist["steps_on_reused_graph_objects"] = hist.get("steps_on_reused_graph_objects", 0) + 1
             ok = isinstance(o, list) and o and o[0] != "EXC"
             for i, st in enumerate(c["steps"]):
-                flat.append((_sub(c, st), o[i][0] if ok else o))
+                if st.get("call") not in _NON_SEARCH:
+                    flat.append((_sub(c, st), o[i][0] if ok else o))
         else:
             flat.append((c, o))
     for c, o in flat:
@@ -718,7 +1042,7 @@ def distribution(cases, obss):
                 first_graph_larger=first_larger, modes=modes, histories=hist,
                 empty_graph_calls=sum(1 for c, _ in flat if not c["g1"]["nodes"] or not c["g2"]["nodes"]),
                 calls_with_10plus_nodes=sum(1 for c, _ in flat if max(len(c["g1"]["nodes"]), len(c["g2"]["nodes"])) >= 10),
-                disconnected_first_graph=sum(1 for c in cases if _n_comp(c["g1"]) > 1),
+                disconnected_first_graph=sum(1 for c in cases if "g1" in c and _n_comp(c["g1"]) > 1),
                 wildcard_pruning=sum(1 for c in cases if c.get("prune_wc")),
                 oracle_only=sum(1 for c in cases if c.get("prune_auto") or c.get("mode")))
 
@@ -993,6 +1317,7 @@ def _as_morphed(prev, new):
 
 
 _DIRS = ["G1_to_G2", "G2_to_G1", "pattern_to_host", "kw"]
+_NON_SEARCH = ("reads", "bad_side")
 
 
 def _hist_case(kind, variant, configs, steps):
@@ -1219,6 +1544,7 @@ def _rc_side_histories(rng, n):
             side = rng.choice(["r", "l", "op"]) if variant == "matcher" else "op"
             g1, g2 = {"r": (r1, r2), "l": (l1, l2), "op": (r1, l2)}[side]
             steps.append(dict(g1=g1, g2=g2, its1=its1, its2=its2, side=side, mcs=rng.random() < 0.8, call="rc_side",
+                              sides=dict(l1=l1, r1=r1, l2=l2, r2=r2),
                               component=variant == "matcher" and rng.random() < 0.4, positional=rng.random() < 0.5,
                               mol=False,
                               upper=rng.random() < 0.3,
@@ -1378,6 +1704,211 @@ def _sizes(rng, n):
     return out
 
 
+# ------------------------------------------------------------------ round 5: the object's state, raw dictionaries, constructor
+
+_BAD_DIRS = ["G1_to_g2", "g1_to_g2", "", "host_to_pattern", "G2_to_G1 ", "both"]
+
+
+def _raw_decorate(rng, g1, g2, flavour):
+    """Attribute dictionaries as callers really have them: extra keys, orders that float() accepts in other spellings ("1",
+    "2.0", True) or rejects (ITS order pairs, words)."""
+    g1, g2 = _gcopy(g1), _gcopy(g2)
+    for g in (g1, g2):
+        for _, a in g["nodes"]:
+            if rng.random() < 0.5:
+                a["hcount"] = rng.choice([0, 1, 2])
+            if rng.random() < 0.3:
+                a["aromatic"] = False
+            if rng.random() < 0.3:
+                a["neighbors"] = ["C", "O"]
+        for e in g["edges"]:
+            o = e[2].get("order")
+            if rng.random() < 0.4:
+                e[2]["standard_order"] = rng.choice([0, 1, -1])
+            if o is None:
+                continue
+            if flavour == "spelling":
+                z = rng.random()
+                if z < 0.3:
+                    e[2]["order"] = {1: "1", 2: "2.0", 1.5: "1.5", 0: "0", 3: "3"}.get(o, o)
+                elif z < 0.4 and o == 1:
+                    e[2]["order"] = True
+                elif z < 0.5:
+                    e[2]["order"] = float(o)
+            elif flavour == "pairs":
+                # ITS-like order pairs: equal pairs match, a pair never matches a number
+                if rng.random() < 0.8:
+                    e[2]["order"] = [o, rng.choice([o, o, 0, 1])] if rng.random() < 0.8 else [float(o), float(o)]
+            elif flavour == "words":
+                e[2]["order"] = {1: "single", 2: "double", 1.5: "aromatic"}.get(o, o) if rng.random() < 0.7 else o
+    return g1, g2
+
+
+def _rand_cfg(rng):
+    """A configuration given by the arguments REALLY passed; returns the cfg dict with the effective values filled in."""
+    z = rng.random()
+    if z < 0.25:
+        passed = dict(node_attrs=None, node_defaults=None)
+    elif z < 0.4:
+        passed = dict(node_attrs=["element"], node_defaults=None)
+    elif z < 0.55:
+        passed = dict(node_attrs=["element", "charge"], node_defaults=None)          # defaults ["*", "*"]
+    elif z < 0.75:
+        passed = dict(node_attrs=["element", "charge"], node_defaults=["*", 0])
+    elif z < 0.85:
+        passed = dict(node_attrs=["charge", "element"], node_defaults=[0, "*"])
+    elif z < 0.92:
+        passed = dict(node_attrs=["element", "hcount"], node_defaults=["*", 0])
+    else:
+        passed = dict(node_attrs=[], node_defaults=None if rng.random() < 0.5 else [])
+    passed["edge_attrs"] = rng.choice([None, None, [], ["order"], ["order", "standard_order"], ["standard_order", "order"], ["standard_order"]])
+    na = passed["node_attrs"] if passed["node_attrs"] is not None else ["element"]
+    nd = passed["node_defaults"] if passed["node_defaults"] is not None else ["*"] * len(na)
+    cfg = dict(node_attrs=list(na), node_defaults=list(nd), edge_attrs=list(passed["edge_attrs"] or ["order"]), passed=passed)
+    if rng.random() < 0.3:
+        cfg["prune_wc"] = True
+        if rng.random() < 0.4:
+            cfg["wildcard"], cfg["element_key"] = rng.choice([("X", "symbol"), (0, "symbol"), ("X", "element")])
+    return cfg
+
+
+def _state_histories(rng, n):
+    """One matcher object (sometimes two) through searches, READS (before any search, with unknown direction strings, repeated),
+    facade calls with an unknown side (the cache is reset before the error), searches again; graphs with raw attribute
+    dictionaries (extra keys, orders in other spellings, order pairs, words)."""
+    out = []
+    for t in range(n):
+        configs = [_rand_cfg(rng)]
+        if rng.random() < 0.3:
+            configs.append(_rand_cfg(rng))
+        flavour = rng.choice(["plain", "spelling", "pairs", "words"])
+        steps = []
+
+        def reads(ci, prev):
+            ds = [rng.choice(["G1_to_G2", "G2_to_G1", "pattern_to_host"] + _BAD_DIRS) for _ in range(rng.randint(1, 4))]
+            st = dict(call="reads", reads=ds, cfg=ci, mcs=True, g1=prev[0], g2=prev[1])
+            return st
+        prev = (_EMPTY_G, _EMPTY_G)
+        used = set()
+        for k in range(rng.randint(2, 6)):
+            ci = rng.randrange(len(configs))
+            z = rng.random()
+            if k == 0 and rng.random() < 0.5:
+                steps.append(reads(ci, prev))
+                continue
+            if z < 0.3 and steps:
+                steps.append(reads(ci, prev))
+                continue
+            if z < 0.42:
+                its1, _, _ = _its_pair(rng)
+                its2, _, _ = _its_pair(rng)
+                steps.append(dict(call="bad_side", side=rng.choice(["x", "lr", "", "right", "ITS ", "o p"]), its1=its1, its2=its2, cfg=ci,
+                                  mcs=rng.random() < 0.5, component=rng.random() < 0.5, g1=prev[0], g2=prev[1]))
+                continue
+            wc = bool(configs[ci].get("prune_wc"))
+            if rng.random() < 0.15:
+                a, _, _ = _its_pair(rng)            # real ITS graphs through side="its": order pairs, typesGH tuples
+                b, _, _ = _its_pair(rng)
+                if rng.random() < 0.5:
+                    b = G.relabel(a, dict(zip([x for x, _ in a["nodes"]], rng.sample(range(20, 40), len(a["nodes"])))))
+                call = rng.choice(["rc_its", "component"])
+            else:
+                a, b = _small_pair(rng, wc and "wildcard" not in configs[ci])
+                if wc and "wildcard" in configs[ci]:
+                    for g in (a, b):
+                        for nd_ in g["nodes"]:
+                            if rng.random() < 0.3:
+                                nd_[1][configs[ci]["element_key"]] = configs[ci]["wildcard"]
+                if rng.random() < 0.35 and steps and prev[0]["nodes"]:
+                    a, b = (prev[1], prev[0]) if rng.random() < 0.5 else (prev[0], _edit(rng, prev[1]))
+                elif flavour != "plain":
+                    if rng.random() < 0.5:        # a relabelled copy, so that the decorated orders decide
+                        ids = [x for x, _ in a["nodes"]]
+                        b = G.shuffle_insertion(G.relabel(a, dict(zip(ids, rng.sample(range(1, 16), len(ids))))), rng)
+                    a, b = _raw_decorate(rng, a, b, flavour)
+                call = rng.choice(["fcs", "fcs", "fcs", "rc_its", "component"])
+            st = dict(g1=a, g2=b, mcs=rng.random() < 0.7, call=call, cfg=ci, positional=rng.random() < 0.3,
+                      reads=[rng.choice(_DIRS) for _ in range(rng.randint(1, 3))])
+            if ci in used and rng.random() < 0.15:
+                st["fresh"] = True
+            used.add(ci)
+            steps.append(st)
+            prev = (a, b)
+        if all(s_.get("call") in _NON_SEARCH for s_ in steps):
+            a, b = _small_pair(rng)
+            steps.append(dict(g1=a, g2=b, mcs=True, call="fcs", cfg=0, reads=["G1_to_G2"]))
+        out.append(_hist_case("history/state+" + flavour, "matcher", configs, steps))
+    return out
+
+
+def _state_histories_mtg(rng, n):
+    """The MTG copy as an object: constructor with names / defaults of different lengths (generic_node_match zips them: the
+    shortest decides), reads before any search and between searches, its facade, orders in other spellings."""
+    out = []
+    for t in range(n):
+        z = rng.random()
+        if z < 0.3:
+            passed = dict(node_attrs=None, node_defaults=None)
+        elif z < 0.5:
+            passed = dict(node_attrs=["element", "charge"], node_defaults=["*", 0])
+        elif z < 0.65:
+            passed = dict(node_attrs=["element", "charge"], node_defaults=["*"])            # charge is NOT compared
+        elif z < 0.8:
+            passed = dict(node_attrs=["element"], node_defaults=["*", 0])
+        elif z < 0.9:
+            passed = dict(node_attrs=["element", "charge"], node_defaults=None)
+        else:
+            passed = dict(node_attrs=["charge", "element"], node_defaults=[0])              # only the charge is compared
+        passed["edge_attrs"] = rng.choice([None, ["order"], ["order"], ["standard_order"]])
+        na = passed["node_attrs"] if passed["node_attrs"] is not None else ["element"]
+        nd = passed["node_defaults"] if passed["node_defaults"] is not None else ["*"] * len(na)
+        k_ = min(len(na), len(nd))
+        cfg = dict(node_attrs=list(na[:k_]), node_defaults=list(nd[:k_]), edge_attrs=list(passed["edge_attrs"] or ["order"]), passed=passed)
+        steps, prev = [], (_EMPTY_G, _EMPTY_G)
+        for k in range(rng.randint(2, 5)):
+            if (k == 0 and rng.random() < 0.5) or (steps and rng.random() < 0.3):
+                steps.append(dict(call="reads", reads=[], cfg=0, mcs=True, g1=prev[0], g2=prev[1]))
+                continue
+            a, b = _small_pair(rng)
+            if steps and prev[0]["nodes"] and rng.random() < 0.35:
+                a, b = prev[1], prev[0]
+            elif rng.random() < 0.5:
+                if rng.random() < 0.5:
+                    ids = [x for x, _ in a["nodes"]]
+                    b = G.shuffle_insertion(G.relabel(a, dict(zip(ids, rng.sample(range(1, 16), len(ids))))), rng)
+                a, b = _raw_decorate(rng, a, b, "spelling")
+            if cfg["edge_attrs"] == ["standard_order"]:
+                for g in (a, b):
+                    for e in g["edges"]:
+                        e[2].setdefault("standard_order", rng.choice([0, 1]))
+            steps.append(dict(g1=a, g2=b, mcs=rng.random() < 0.7, call="fcs", cfg=0, reads=[]))
+            prev = (a, b)
+        if all(s_.get("call") in _NON_SEARCH for s_ in steps):
+            a, b = _small_pair(rng)
+            steps.append(dict(g1=a, g2=b, mcs=True, call="fcs", cfg=0, reads=[]))
+        out.append(_hist_case("history/state-mtg", "mtg", [cfg], steps))
+    return out
+
+
+def _ctor_cases(rng, n):
+    """MCSMatcher.__init__ alone: defaulting of node_attrs / node_defaults, the length test (ValueError), edge_attrs or ["order"]."""
+    out = []
+    names = ["element", "charge", "hcount", "atom_map"]
+    for t in range(n):
+        na = None if rng.random() < 0.3 else rng.sample(names, rng.randint(0, 3))
+        k = len(na) if na is not None else 1
+        z = rng.random()
+        nd = None if z < 0.35 else [rng.choice(["*", 0, "", "C", 1]) for _ in range(k if z < 0.7 else max(0, k + rng.choice([-1, 1, 2])))]
+        c = dict(node_attrs=na, node_defaults=nd, edge_attrs=rng.choice([None, [], ["order"], ["standard_order"], ["order", "standard_order"]]),
+                 positional=rng.random() < 0.4)
+        if rng.random() < 0.5:
+            c.update(prune_wc=rng.random() < 0.5, prune_auto=rng.random() < 0.5)
+        if rng.random() < 0.4:
+            c.update(wildcard=rng.choice(["X", 0, "*"]), element_key=rng.choice(["symbol", "element"]))
+        out.append(dict(kind="ctor", variant="matcher", ctor=c))
+    return out
+
+
 def gen_cases(tier, rng):
     cases = []
     cls = {n: [_strip(g) for g in G.iso_classes(n, G.MOL_NODE_LABELS_NOH, G.MOL_EDGE_LABELS)] for n in (1, 2, 3)}
@@ -1421,4 +1952,7 @@ def gen_cases(tier, rng):
     cases += _rc_side_histories(rng, 80 if tier == "quick" else 600)
     cases += _mcs_mol_cases(rng, 150 if tier == "quick" else 1500)
     cases += _sizes(rng, 24 if tier == "quick" else 150)
+    cases += _state_histories(rng, 200 if tier == "quick" else 1500)
+    cases += _ctor_cases(rng, 60 if tier == "quick" else 300)
+    cases += _state_histories_mtg(rng, 80 if tier == "quick" else 600)
     return cases
